@@ -216,7 +216,7 @@ def gen(tier: str, seed: int) -> list[Case]:
     gated = gated_features()
     terms = depth2_terms()
     n_exh = len(terms)
-    n_random = 600 if tier == "quick" else 12000
+    n_random = 600 if tier == "quick" else 60000
     for _ in range(n_random):
         terms.append(random_term(rng, rng.randint(3, 4)))
     items = []
